@@ -56,6 +56,31 @@ class DbosIncarnation:
                      "executor_id": self.executor_id, "run_admin_server": False})
         self.runtime = DBOSRuntime(polling_interval_sec=w.cfg.get("polling_interval", 0.25))
         inner = self.runtime.build_server_runtime(idle_timeout=w.cfg.get("idle_timeout", 60.0)) if self.server_chain else self.runtime
+        self.chain = inner
+        if self.server_chain:
+            # what WorkflowServer(runtime=dbos_runtime.build_server_runtime(), workflow_store=dbos_runtime.create_workflow_store()) assembles
+            from llama_agents.server._runtime.server_runtime import ServerRuntimeDecorator
+            from llama_agents.server._service import _WorkflowService
+            self.store = self.runtime.create_workflow_store()
+            self.server_rt = ServerRuntimeDecorator(inner, store=self.store, persistence_backoff=list(w.cfg.get("persistence_backoff", [0.5, 3])))
+            self.outer = SimRuntime(w, inner=self.server_rt)
+            self.service = _WorkflowService(runtime=self.server_rt, store=self.store)
+            # observation only: when a resume of a released run starts, ends, or raises (the service sends through a fire-and-forget
+            # task, so the exception is visible nowhere else)
+            orig_resume = inner._do_resume
+
+            async def observed_resume(run_id, pending_tick=None):
+                import re
+                w.trace.log("dbos-resume", run=run_id, pending=type(getattr(pending_tick, "event", None)).__name__ if pending_tick is not None else None)
+                try:
+                    r = await orig_resume(run_id, pending_tick=pending_tick)
+                    w.trace.log("dbos-resumed", run=run_id)
+                    return r
+                except Exception as e:  # noqa: BLE001
+                    w.trace.log("reload-error", exc=type(e).__name__, msg=re.sub(r"\d+", "N", str(e))[:100], run=run_id)
+                    raise
+            inner._do_resume = observed_resume
+            return
         self.outer = SimRuntime(w, inner=inner)
 
     def add_workflow(self, name: str, spec: dict, **kw: Any):
@@ -71,6 +96,10 @@ class DbosIncarnation:
 
     async def launch(self) -> None:
         await self.call(self.outer.launch() if hasattr(self.outer, "launch") else self.runtime.launch())
+
+    async def start(self) -> None:
+        """server chain: start the service (which launches the runtime stack, DBOS included)"""
+        await self.call(self.service.start())
 
 
 class DbosWorld(EngineWorld):
